@@ -71,16 +71,17 @@ def rec_fit(args):
     pai = pa if fixp else pa + 0.15
     if c.get('start') == 'perp':
         pai = pa + math.pi / 2 + 0.1
-    linear = c['mode'] == 'linear_growth'
+    lingeo = c['mode'] == 'linear_geometry'      # the documented way to ask for linear growth: a geometry with astep in pixels
+    linear = c['mode'] == 'linear_growth' or lingeo
     step = 2.0 if linear else 0.15
     minsma, maxsma = 4.0 * sc, 26.0 * sc
     if big and not linear:
         step = 0.2
     rec = {'id': idx, 'kind': 'fit', 'raised': False, 'demand_fit': c['eps'] <= 50, 'fix_center': fixc, 'fix_pa': fixp, 'fix_eps': fixe, 'params': c}
     try:
-        g = EllipseGeometry(x0i, y0i, 10.0 * sc, epsi, pai)
+        g = EllipseGeometry(x0i, y0i, 10.0 * sc, epsi, pai) if not lingeo else EllipseGeometry(x0i, y0i, 10.0 * sc, epsi, pai, astep=2.0, linear_growth=True)
         el = Ellipse(img, g)
-        iso = el.fit_image(sma0=10.0 * sc, minsma=minsma, maxsma=maxsma, step=step, linear=linear,
+        iso = el.fit_image(sma0=10.0 * sc, minsma=minsma, maxsma=maxsma, step=step, linear=(None if lingeo else linear),
                            integrmode='nearest_neighbor' if c['mode'] == 'nearest' else (c['mode'] if c['mode'] in ('mean', 'median') else 'bilinear'),
                            fix_center=fixc, fix_pa=fixp, fix_eps=fixe, maxrit=(13.0 if c['mode'] == 'maxrit' else None))
         n = len(iso)
@@ -99,7 +100,7 @@ def rec_fit(args):
         # well sampled: converged iterative fit, sma between 6 and 22 px, and the true geometry used for intensity only when not fixed elsewhere
         # (with bilinear sampling and a position angle away from 0 every such isophote is demanded to be right whatever its stop code:
         # on a noise-free ellipse the fit has no excuse; at PA = 0 - see the known finding - and for the coarser modes only converged ones)
-        strict = c['mode'] in ('bilinear', 'linear_growth', 'mean', 'median') and c['pa'] != 0
+        strict = c['mode'] in ('bilinear', 'linear_growth', 'linear_geometry', 'mean', 'median') and c['pa'] != 0
         rec['well'] = [bool((i.stop_code == 0 or strict) and 6.0 * sc <= i.sma <= (12.0 if c['mode'] == 'maxrit' else 22.0) * sc and i.valid and c['fix'] == 'none' and c['eps'] <= 50) for i in iso]
         # nearest-neighbour sampling reads pixel values up to half a pixel off the ellipse: 5 % on steep profiles (2 % for bilinear)
         rec['intens_tol'] = 820 if c['mode'] == 'nearest' else 330
@@ -164,8 +165,10 @@ def run(ctx):
     edge.sort(key=lambda c: c['frame'].startswith('large') and c['mode'] in ('mean', 'median'), reverse=True)       # large sectors first
     large = [c for c in lat if c.get('start') != 'perp' and c['frame'] == 'large']
     near = [c for c in lat if c.get('start') != 'perp' and c['frame'] not in ('nearleft', 'nearbottom', 'large', 'largeleft', 'largebottom')]
+    lingeo = [c for c in near if c['mode'] == 'linear_geometry']
+    near = [c for c in near if c['mode'] != 'linear_geometry']
     nq = 96 if q else 1200
-    lat = near[: nq - nq // 4 - nq // 8 - nq // 12] + perp[: nq // 4] + edge[: nq // 8] + large[: nq // 12]
+    lat = near[: nq - nq // 4 - nq // 8 - nq // 12] + perp[: nq // 4] + edge[: nq // 8] + large[: nq // 12] + lingeo[: nq // 16]
     recs = core.pmap(rec_fit, list(enumerate(lat)), chunksize=1, on_raise='drop')
     recs += [rec_polar(ctx.seed * 100 + k) for k in range(40 if q else 400)]
     ver = core.validate_batch(ctx, 'Trace_Iso', recs, 'Trace:Iso')
